@@ -5,7 +5,7 @@
    elements in sequence order (up to a collision of the combining hash); and the increments are
    the Renyi spacings of m exponentials, as in ProbMinHash2. *)
 From Coq Require Import List ZArith Bool Reals Permutation.
-From PMH Require Import Lib.ListArr Model.ProbMinHash Model.OrdMinHash Gen.FlagsOrd Gen.PmhFormulas
+From PMH Require Import Lib.ListArr Model.ProbMinHash Model.OrdMinHash Gen.FlagsOrd Gen.PmhFormulas Gen.PmhFormulasSrc Proofs.PmhFormulasSrc
   Proofs.OrdMinHash Proofs.OrdTopL Proofs.PmhLaw.
 Import ListNotations.
 
@@ -30,7 +30,12 @@ Proof. exact hash_set_slot. Qed.
 Theorem C10_increments_are_spacings : forall m i : R, ord_g m (i + 1) = pmh2_beta m i.
 Proof. exact g_is_beta. Qed.
 
+(* the table g as the source text fills it is the formula the spacing identity is stated on *)
+Theorem C10_source_increment_is_the_proved_increment : forall m i, (i < m)%R -> ord_g_src m i = ord_g m i.
+Proof. exact ord_g_src_ok. Qed.
+
 Print Assumptions C10_source_flag.
 Print Assumptions C10_slot_update.
 Print Assumptions C10_slot_is_l_lowest.
 Print Assumptions C10_increments_are_spacings.
+Print Assumptions C10_source_increment_is_the_proved_increment.
